@@ -289,7 +289,9 @@ static int coop_lock(pthread_mutex_t *m)
     coop_point('l');
     for (;;) {
         int r = real_trylock(m);
-        if (r != EBUSY) { tr('L'); return r; }
+        /* (having the lock is a scheduling point of its own: a critical section without any call in it could otherwise never be
+           interrupted, and nobody would ever meet that lock taken) */
+        if (r != EBUSY) { if (r == 0) coop_point('L'); else tr('L'); return r; }
         /* held by a descheduled thread: block, run somebody else */
         int me = my_index;
         cth[me].state = 2; cth[me].waits = m;
